@@ -263,7 +263,7 @@ package spdxexp
 //@     invariant[C03] okExp(exp) && fresh(exp)
 //@     decreases len(exp.expression) - exp.index
 //@     invariant[C03] tokens == nil || fresh(tokens)
-//@     invariant[C05,C15] rel(exp, orig) && !isErr(exp.err)
+//@     invariant[C05,C15,C07,C10] rel(exp, orig) && !isErr(exp.err)
 //@     invariant[C06,C07] okToks(tokens)
 //@     invariant[C05,scoped,grp=lex] lexState(exp, orig, len(tokens)) && !spaceBefore(exp)
 //@     invariant[C05,scoped,grp=toks] forall j :: 0 <= j && j < len(tokens) ==> tokens[j].role == tokRoleK(orig, j) && tokens[j].value == tokValK(orig, j)
@@ -281,11 +281,11 @@ package spdxexp
 //@ func (*expressionStream).parseToken
 //@   ghostparam orig string
 //@   requires okExp(exp) && exp.index < len(exp.expression)
-//@   requires[C05,C15] rel(exp, orig) && !isErr(exp.err)
+//@   requires[C05,C15,C07,C10] rel(exp, orig) && !isErr(exp.err)
 //@   modifies exp.index, exp.err, exp.expression, exp.removed
 //@   ensures[C03] okExp(exp)
 //@   ensures[C03] tokProgress: !isErr(exp.err) && result != nil ==> len(exp.expression) - exp.index < old(len(exp.expression) - exp.index)
-//@   ensures[C05,C15] !isErr(exp.err) ==> rel(exp, orig) && exp.index > old(exp.index) - 9
+//@   ensures[C05,C15,C07,C10] !isErr(exp.err) ==> rel(exp, orig) && exp.index > old(exp.index) - 9
 //@   ensures[C06,C07] !isErr(exp.err) && result != nil ==> okTok(result)
 //@   ensures[C05,scoped,grp=lex] tokPend: old(pend(exp, orig)) && old(!spaceBefore(exp)) ==> !isErr(exp.err) && result != nil && result.role == 0 && result.value == "+" && syncd(exp, orig) && exp.index + exp.removed == old(exp.index + exp.removed) + 1
 //@   ensures[C05,scoped,grp=lex] tokErr: old(syncd(exp, orig)) ==> (isErr(exp.err) <==> stepErr(orig, old(exp.index + exp.removed), old(spaceBefore(exp))))
@@ -297,14 +297,14 @@ package spdxexp
 //@ func (*expressionStream).readOperator
 //@   ghostparam orig string
 //@   requires okExp(exp)
-//@   requires[C05,C15] rel(exp, orig) && !isErr(exp.err)
+//@   requires[C05,C15,C07,C10] rel(exp, orig) && !isErr(exp.err)
 //@   modifies exp.index, exp.err
 //@   ensures[C03] okExp(exp)
 //@   ensures[C03] result == nil && !isErr(exp.err) ==> exp.index == old(exp.index)
 //@   ensures[C03] !isErr(old(exp.err)) && result != nil ==> !isErr(exp.err)
 //@   ensures[C03] opProgress: result != nil ==> exp.index > old(exp.index)
-//@   ensures[C05,C15] result != nil ==> syncd(exp, orig) && exp.index >= old(exp.index)
-//@   ensures[C05,C15] result == nil && !isErr(exp.err) ==> syncd(exp, orig)
+//@   ensures[C05,C15,C07,C10] result != nil ==> syncd(exp, orig) && exp.index >= old(exp.index)
+//@   ensures[C05,C15,C07,C10] result == nil && !isErr(exp.err) ==> syncd(exp, orig)
 //@   ensures[C05] result != nil ==> result.role == 0 && result.value != "" && result.value == firstOp(old(exp.expression[exp.index:])) && exp.index == old(exp.index) + len(result.value)
 //@   ensures[C05] result == nil && !isErr(exp.err) ==> firstOp(old(exp.expression[exp.index:])) == ""
 //@   ensures[C05] isErr(exp.err) <==> (firstOp(old(exp.expression[exp.index:])) == "+" && old(spaceBefore(exp)))
@@ -313,20 +313,20 @@ package spdxexp
 //@   loop 0:
 //@     invariant[C03] okExp(exp) && exp.err == old(exp.err)
 //@     invariant[C03] len(op) == 0 && exp.index == old(exp.index)
-//@     invariant[C05,C15] len(possibilities) == 7 && possibilities[0] == "WITH" && possibilities[1] == "AND" && possibilities[2] == "OR" && possibilities[3] == "(" && possibilities[4] == ")" && possibilities[5] == ":" && possibilities[6] == "+"
-//@     invariant[C05,C15] $i <= 7 && forall k :: 0 <= k && k < $i ==> !HasPrefix(exp.expression[exp.index:], possibilities[k])
+//@     invariant[C05,C15,C07,C10] len(possibilities) == 7 && possibilities[0] == "WITH" && possibilities[1] == "AND" && possibilities[2] == "OR" && possibilities[3] == "(" && possibilities[4] == ")" && possibilities[5] == ":" && possibilities[6] == "+"
+//@     invariant[C05,C15,C07,C10] $i <= 7 && forall k :: 0 <= k && k < $i ==> !HasPrefix(exp.expression[exp.index:], possibilities[k])
 //@ end
 
 //@ func (*expressionStream).readID
 //@   ghostparam orig string
 //@   requires okExp(exp)
-//@   requires[C05,C15] syncd(exp, orig)
+//@   requires[C05,C15,C07,C10] syncd(exp, orig)
 //@   modifies exp.index, exp.err
 //@   ensures[C03] okExp(exp)
 //@   ensures[C03] exp.index == old(exp.index) + len(result)
 //@   ensures[C03] isErr(exp.err) <==> (isErr(old(exp.err)) || len(result) == 0)
 //@   ensures[C06,C07] len(result) > 0 ==> inRe(result, "idch+")
-//@   ensures[C05,C15] syncd(exp, orig) && result == exp.expression[old(exp.index):exp.index] && result == orig[old(exp.index) + exp.removed:exp.index + exp.removed]
+//@   ensures[C05,C15,C07,C10] syncd(exp, orig) && result == exp.expression[old(exp.index):exp.index] && result == orig[old(exp.index) + exp.removed:exp.index + exp.removed]
 //@   ensures[C05] idRun: len(result) == idLen(orig, old(exp.index + exp.removed))
 //@   ensures[C05] len(result) > 0 ==> !spaceBefore(exp)
 //@   assert[C15] call fmt.Sprintf#0: 0 <= arg1 && arg1 <= len(orig) && arg1 == exp.index + exp.removed
@@ -335,12 +335,12 @@ package spdxexp
 //@ func (*expressionStream).readDocumentRef
 //@   ghostparam orig string
 //@   requires okExp(exp)
-//@   requires[C05,C15] syncd(exp, orig)
+//@   requires[C05,C15,C07,C10] syncd(exp, orig)
 //@   modifies exp.index, exp.err
 //@   ensures[C03] okExp(exp)
 //@   ensures[C03] docProgress: result != nil ==> exp.index > old(exp.index)
 //@   ensures[C03] result == nil && !isErr(exp.err) ==> exp.index == old(exp.index)
-//@   ensures[C05,C15] !isErr(exp.err) ==> syncd(exp, orig) && exp.index >= old(exp.index)
+//@   ensures[C05,C15,C07,C10] !isErr(exp.err) ==> syncd(exp, orig) && exp.index >= old(exp.index)
 //@   ensures[C06,C07] result != nil ==> result.role == 1 && okTok(result)
 //@   requires[C05] !isErr(exp.err)
 //@   ensures[C05] result != nil ==> !spaceBefore(exp)
@@ -352,12 +352,12 @@ package spdxexp
 //@ func (*expressionStream).readLicenseRef
 //@   ghostparam orig string
 //@   requires okExp(exp)
-//@   requires[C05,C15] syncd(exp, orig)
+//@   requires[C05,C15,C07,C10] syncd(exp, orig)
 //@   modifies exp.index, exp.err
 //@   ensures[C03] okExp(exp)
 //@   ensures[C03] lrefProgress: result != nil ==> exp.index > old(exp.index)
 //@   ensures[C03] result == nil && !isErr(exp.err) ==> exp.index == old(exp.index)
-//@   ensures[C05,C15] !isErr(exp.err) ==> syncd(exp, orig) && exp.index >= old(exp.index)
+//@   ensures[C05,C15,C07,C10] !isErr(exp.err) ==> syncd(exp, orig) && exp.index >= old(exp.index)
 //@   ensures[C06,C07] result != nil ==> result.role == 2 && okTok(result)
 //@   requires[C05] !isErr(exp.err)
 //@   ensures[C05] result != nil ==> !spaceBefore(exp)
@@ -369,13 +369,13 @@ package spdxexp
 //@ func (*expressionStream).readLicense
 //@   ghostparam orig string
 //@   requires okExp(exp)
-//@   requires[C05,C15] syncd(exp, orig)
+//@   requires[C05,C15,C07,C10] syncd(exp, orig)
 //@   modifies exp.index, exp.err, exp.expression, exp.removed
 //@   ensures[C03] okExp(exp)
 //@   ensures[C03] result != nil || isErr(exp.err)
 //@   ensures[C03] licProgress: result != nil && !isErr(exp.err) ==> len(exp.expression) - exp.index < old(len(exp.expression) - exp.index)
 //@   ensures[C06,C07] result != nil ==> okTok(result)
-//@   ensures[C05,C15] !isErr(exp.err) ==> rel(exp, orig) && exp.index > old(exp.index) - 9
+//@   ensures[C05,C15,C07,C10] !isErr(exp.err) ==> rel(exp, orig) && exp.index > old(exp.index) - 9
 //@   assert[C15] call fmt.Sprintf#0: 0 <= arg2 && arg2 + len(arg1) <= len(orig) && orig[arg2:arg2 + len(arg1)] == arg1
 //@   requires[C05] !isErr(exp.err)
 //@   ensures[C05] !isErr(exp.err) ==> !spaceBefore(exp)
@@ -391,13 +391,13 @@ package spdxexp
 //@ func (*expressionStream).normalizeLicense
 //@   ghostparam orig string
 //@   requires okExp(exp) && len(license) <= exp.index
-//@   requires[C05,C15] syncd(exp, orig) && exp.expression[exp.index - len(license):exp.index] == license && len(license) >= 1 && exp.index + exp.removed >= len(license)
+//@   requires[C05,C15,C07,C10] syncd(exp, orig) && exp.expression[exp.index - len(license):exp.index] == license && len(license) >= 1 && exp.index + exp.removed >= len(license)
 //@   requires[C06,C07] isIdName(license)
 //@   modifies exp.index, exp.expression, exp.removed
 //@   ensures[C03] okExp(exp)
 //@   ensures[C03] result == nil ==> exp.expression == old(exp.expression) && exp.index == old(exp.index) && exp.removed == old(exp.removed)
 //@   ensures[C03] normProgress: result != nil ==> (exp.expression == old(exp.expression) && exp.index >= old(exp.index)) || (len(exp.expression) == old(len(exp.expression)) - 8 && exp.index == old(exp.index) - 9 && len(license) >= 9)
-//@   ensures[C05,C15] result != nil ==> rel(exp, orig) && exp.index >= old(exp.index) - 9
+//@   ensures[C05,C15,C07,C10] result != nil ==> rel(exp, orig) && exp.index >= old(exp.index) - 9
 //@   ensures[C05,C08,C09] result != nil <==> validId(license, old(exp.index < len(exp.expression) && exp.expression[exp.index:exp.index + 1] == "+"))
 //@   ensures[C05,C08,C09] result != nil ==> result.role == normRole(license, old(npAt(exp))) && result.value == normVal(license, old(npAt(exp)))
 //@   ensures[C05,C08] result != nil && normCase(license, old(npAt(exp))) != 3 && normCase(license, old(npAt(exp))) != 4 ==> exp.index == old(exp.index) && exp.expression == old(exp.expression) && exp.removed == old(exp.removed)
